@@ -23,9 +23,11 @@ fn case(ctx: &Ctx, rng: &mut Rng, rep: &mut Report, params: &vcore::bundlegen::G
     } else {
         gen_bundle(rng, params)
     };
-    if !b.as_spendbundle_ok() {
-        rep.count("skipped:malformed-coin-fields");
-        return;
+    // coin fields that cannot be expressed as a CoinSpend (non-minimal amount atoms, hashes of
+    // another length): the three entry points that take raw output / a generator still get them
+    let sb_ok = b.as_spendbundle_ok();
+    if !sb_ok {
+        rep.count("raw-only:malformed-coin-fields");
     }
     let mut flags = ConsensusFlags::empty();
     if rng.chance(1, 3) {
@@ -67,6 +69,9 @@ fn case(ctx: &Ctx, rng: &mut Rng, rep: &mut Report, params: &vcore::bundlegen::G
             Ok(o2) => accept_invariants(rep, "run_block_generator2", &o2, Some(o.cost), Some(&reveals), &witness),
             Err(e) => rep.violation("accepted-invariant:fails-at-own-cost", &format!("{e:?}"), json!({"witness": witness()})),
         }
+    }
+    if !sb_ok {
+        return;
     }
     let sb = spend_bundle(&strip_ext(&b), &sig);
     if let Ok((o, _)) = run_sb(ctx, &sb, limit, dont) {
